@@ -213,6 +213,41 @@ pub fn check<I: Probes>(vt: &'static Vt<I>, ctx: &Ctx) -> DeclReport {
                     Some(sb) if sb.pcmp(b) == Some(std::cmp::Ordering::Equal) => {}
                     _ => push(&mut rep, format!("{base}|bound-not-stated"), json!({"variant_index": ix, "message": text, "declared_bound": b.to_json()}), format!("message states bound {}", b.to_json()), format!("states {tok:?}")),
                 }
+                // a range stated anywhere in the text (`A..=B`, `A..B`), read literally, is the set of values the
+                // bound rules admit
+                for tokn in text.split_whitespace().map(|t| t.trim_end_matches(|c| c == '.' || c == ',' || c == ';' || c == ')').trim_start_matches('(')) {
+                    let Some(pos) = tokn.find("..") else { continue };
+                    let (l, r) = (&tokn[..pos], &tokn[pos + 2..]);
+                    let (incl, r) = match r.strip_prefix('=') {
+                        Some(r) => (true, r),
+                        None => (false, r),
+                    };
+                    let (Some(lo), Some(hi)) = (I::parse_bound(l), I::parse_bound(r)) else { continue };
+                    let bound_rules: Vec<&Val<I>> = vals.iter().filter(|v| matches!(v, Val::Greater(_) | Val::GreaterEq(_) | Val::Less(_) | Val::LessEq(_))).collect();
+                    let mut xs: Vec<I> = I::probes(&lo);
+                    xs.extend(I::probes(&hi));
+                    for v in &bound_rules {
+                        if let Val::Greater(b) | Val::GreaterEq(b) | Val::Less(b) | Val::LessEq(b) = v {
+                            xs.extend(I::probes(b));
+                        }
+                    }
+                    for x in xs {
+                        probes_n += 1;
+                        let in_stated = matches!(x.pcmp(&lo), Some(std::cmp::Ordering::Greater | std::cmp::Ordering::Equal))
+                            && (x.pcmp(&hi) == Some(std::cmp::Ordering::Less) || (incl && x.pcmp(&hi) == Some(std::cmp::Ordering::Equal)));
+                        let admitted = bound_rules.iter().all(|v| model::satisfies(v, &x));
+                        if in_stated != admitted {
+                            push(
+                                &mut rep,
+                                format!("{base}|stated-range-differs-from-valid-set"),
+                                json!({"variant_index": ix, "message": text, "stated_range": tokn, "probe": x.to_json(), "in_stated_range": in_stated, "bound_rules_admit": admitted}),
+                                "a stated range that holds exactly the values the bound rules admit".into(),
+                                format!("{tokn}: probe {} is {} the stated range but {} by the rules", x.to_json(), if in_stated { "inside" } else { "outside" }, if admitted { "admitted" } else { "rejected" }),
+                            );
+                            break;
+                        }
+                    }
+                }
                 for x in I::probes(b) {
                     probes_n += 1;
                     let accepted = rule_verdict(vt, ix, val, &x);
